@@ -357,7 +357,10 @@ Definition op_config (cfg : config) (bo : b_operation) : config :=        (* cfg
 
 Definition const_attrs (cfg : config) : list attr :=
   flat_map (fun kv : str * option str =>
-              if truthy (snd kv) then [build_attr (fst kv) string_qn true false None (snd kv) None] else [])
+              match snd kv with                        (* `if config[key] is not None` *)
+              | Some _ => [build_attr (fst kv) string_qn true false None (snd kv) None]
+              | None => []
+              end)
            [(k_style, cf_style cfg); (k_location, cf_location cfg); (k_transport, cf_transport cfg);
             (k_soap_action, cf_action cfg)].
 
@@ -536,9 +539,9 @@ Fixpoint dict_set (h : headers) (k v : str) : headers :=
 Definition prepare_headers (transport soap_action : option str) (h : headers) : option headers :=
   if ostr_eqb transport (Some c_soap_transport) then
     let r := dict_set h c_content_type c_text_xml in
-    Some (match soap_action with
-          | Some (c :: a) => dict_set r c_soap_action (c :: a)
-          | _ => r
+    Some (match soap_action with                       (* `if self.config.soap_action is not None` *)
+          | Some a => dict_set r c_soap_action a
+          | None => r
           end)
   else None.
 
